@@ -29,6 +29,7 @@ META['explanation'] += ' ' + 'R8: variant lists - every class but the last can d
 META['explanation'] += ' ' + 'R2 also evaluates every factory that does not inherit the generic decoder as it is, with the real enumeration and the integers its class mentions. R11: a decoded code point reaches the attribute the composer writes at that position.'
 
 META['explanation'] += ' ' + 'R12 / R13: no module level container and no class level state is written by a decoder. R14: no table over range(min(E), max(E)). R15: no parsed sequence rebuilt from the keys / values of a mapping keyed by its items.'
+META['explanation'] += ' ' + 'R16: the writing-side counterpart of R15: no sequence handed on after a round through a set / mapping, no accumulator filled under a membership test.'
 HERE = os.path.dirname(os.path.dirname(os.path.abspath(__file__)))
 
 
